@@ -62,15 +62,22 @@ def r15_3_formula(ctx, prog):
         ctx.ob("R15.3", "reset", final.get("rto") == "top:rtt.configured_rto" and "default" in repr(final.get("srtt"))
                and "default" in repr(final.get("rttvar")), "reset writes %s" % {k: show(v) for k, v in final.items()},
                info["where"])
+    r15_3_config_path(ctx, prog)
+
+
+def r15_3_config_path(ctx, prog, rule="R15.3"):
+    """the configured RTO is stored unchanged by new() and read back unchanged by rto()"""
     paths, info = C.explore_fn(prog, "stun_agent::rtt::RttCalcuator::rto", "rtt", [])
     for pa in paths:
-        ctx.ob("R15.3", "rto-accessor", pa.ret == "top:rtt.rto", "rto() returns %r" % (pa.ret,), info["where"])
+        ctx.ob(rule, "rto-accessor", pa.ret == "top:rtt.rto", "rto() returns %r" % (pa.ret,), info["where"])
     paths, info = C.explore_fn(prog, "stun_agent::rtt::RttCalcuator::new", "rtt", [])
     ctx.fn(info["body"])
     for pa in paths:
         r = pa.ret
         ok = isinstance(r, tuple) and len(r) == 6 and r[1] == "top:rto" and r[5] == "top:rto" and r[4] == "top:granularity"
-        ctx.ob("R15.3", "new", ok, "new(rto, granularity) = %s" % (show(C.expr_of(pa, r)),), info["where"])
+        ctx.ob(rule, "new", ok, "new(rto, granularity) = %s" % (show(C.expr_of(pa, r)),), info["where"])
+
+
 
 
 def r15_1_karn(ctx, prog):
